@@ -472,6 +472,7 @@ pub fn def() -> PropDef {
         needs_pairing: false,
         subs: vec![
             Box::new(crate::engine::EnumSub { name: "long-history", rule: super::longhist::RULE, run: run_long_history, replay: super::longhist::replay, exhaustive: false }),
+            Box::new(crate::engine::EnumSub { name: "two-input-bursts", rule: super::longhist::BURST_RULE, run: run_two_input_bursts, replay: super::longhist::replay_burst, exhaustive: false }),
             Box::new(Sub { name: "g1-programs", rule: "G1 register-machine programs vs model", quick: 12_000, thorough: 150_000, strategy: || boxed(strat_g1()), check }),
             Box::new(Sub { name: "g2-programs", rule: "G2 register-machine programs vs model", quick: 12_000, thorough: 150_000, strategy: || boxed(strat_g2()), check }),
         ],
